@@ -5,6 +5,7 @@
 package c03
 
 import (
+	"sync/atomic"
 	"context"
 	"encoding/json"
 	"errors"
@@ -106,6 +107,11 @@ func TestC03Mix(t *testing.T) {
 			opts = append(opts, ebu.WithSubscriptionStore(st.Sub))
 		} else {
 			opts = append(opts, ebu.WithSubscriptionStore(ebu.NewMemoryStore()))
+		}
+		if (i/len(kinds))%2 == 1 || run.Shard%2 == 1 {
+			// every other round / shard: an Observability implementation next to the store (its callbacks run on
+			// the publishers' and the async handlers' goroutines)
+			opts = append(opts, ebu.WithObservability(&countingObs{}))
 		}
 		bus := ebu.New(opts...) // setters are applied before concurrent use begins
 		mat := state.NewMaterializer()
@@ -351,3 +357,22 @@ func TestC03RegistryStress(t *testing.T) {
 		}
 	}
 }
+
+// countingObs is an Observability whose callbacks only touch their own atomic counters.
+type countingObs struct{ pub, handler, persist atomic.Int64 }
+
+func (o *countingObs) OnPublishStart(ctx context.Context, _ string, _ any) context.Context {
+	o.pub.Add(1)
+	return ctx
+}
+func (o *countingObs) OnPublishComplete(context.Context, string) {}
+func (o *countingObs) OnHandlerStart(ctx context.Context, _ string, _ bool) context.Context {
+	o.handler.Add(1)
+	return ctx
+}
+func (o *countingObs) OnHandlerComplete(context.Context, time.Duration, error) {}
+func (o *countingObs) OnPersistStart(ctx context.Context, _ string, _ int64) context.Context {
+	o.persist.Add(1)
+	return ctx
+}
+func (o *countingObs) OnPersistComplete(context.Context, time.Duration, error) {}
